@@ -116,7 +116,6 @@ package section
 //@   ensures errors-array-same-or-fresh: p.errors.arr == old(p.errors.arr) || fresh(p.errors.arr)
 //@   ensures len(p.errors) >= old(len(p.errors))
 
-
 // A program is the sequence of its changes in file order (C09); an empty patch is an error.
 //@ func (p *programSplitter) readProgram() (prog)
 //@   requires lineOK(p)
